@@ -7,7 +7,11 @@ the property's quantifier (`'wf': True`), through the monitor:
     no two distinct values of the batch share an encoding.
 Strings travel to the Lean driver as '.'-joined hexadecimal code points ('-' = empty).
 
-codecs:  uid    base-N, gen_uniqueid, _fmt_unique_name / app_name / app_unique_id
+codecs:  uid      base-N, gen_uniqueid, _fmt_unique_name / app_name / app_unique_id
+         rule     RuleMgr._filenameify / get_rule (+ each of the three regexes on malformed names)
+         event    <Class>.to_data / from_data, trace.{app,server}.zk.publish / TraceLoop._process_events
+         payload  zkutils.put (-> _payload) / get_with_metadata
+         ldap     Application / CellAllocation / Partition .to_entry / _remove_empty / .from_entry
 """
 import json
 import string
@@ -18,7 +22,7 @@ import fw
 
 NAME = 'codec'
 DRIVER = 'Codec'
-CASES = {'quick': 400, 'thorough': 8000, 'search': 1500}
+CASES = {'quick': 800, 'thorough': 8000, 'search': 2000}
 RULE = {
     'C15': 'batches of 20-40 structured values per case for one codec (uid | rule | event | payload | ldap), '
            'mostly well-formed plus a malformed stream; every value goes through the real encoder and decoder '
@@ -932,7 +936,7 @@ def gen_payload(rng, tier):
             t = rng.choice(RAW_TEXT)
             if rng.random() < 0.4:
                 t = json.dumps(_jcontainer(rng, 2), sort_keys=True)
-                if rng.random() < 0.7 and t:
+                if rng.random() < 0.7 and t and '\\ud' not in t:     # (a mutation could leave a lone surrogate escape: not modelled)
                     pos = rng.randrange(len(t))
                     t = rng.choice([t[:pos] + t[pos + 1:], t[:pos] + rng.choice(' ,]}x"') + t[pos:], t[:pos]])
             items.append({'k': 'zraw', 'text': t, 'as': rng.choice(['str', 'bytes']), 'strict': rng.random() < 0.5, 'wf': False})
@@ -1264,6 +1268,11 @@ def _subsumed(x, y, path=''):
         if not isinstance(y, dict):
             return '%s: %r became %r' % (path, x, y)
         for k, v in x.items():
+            if path == '' and k == 'data' and isinstance(v, dict):
+                # a `dict`-typed schema field (Partition.data) is one JSON document: exact
+                if canon(y.get(k)) != canon(v):
+                    return '.data: %r became %r' % (v, y.get(k))
+                continue
             if _blank(v):
                 continue
             if k not in y:
